@@ -1476,3 +1476,74 @@ def inject_at(body, inj, rng):
     for j, st in enumerate(inj):
         lst.insert(i + j, st)
     return body
+
+
+# ---------------------------------------------------------------------------------------------
+# C14: interleaving drivers
+
+
+def il_driver(name, k, m, makers):
+    """k iterators (makers[i] = Go expression creating iterator i), each advanced exactly m times:
+    first alone (logs 0..k-1), then fresh instances under a nondeterministic schedule
+    (logs 10..10+k-1); per-iterator logs must be equal and heap footprints disjoint."""
+    mk = "\n".join("\t\tcase %d:\n\t\t\treturn %s" % (i, e) for i, e in enumerate(makers))
+    return """func DriveIL_%(name)s() {
+	a, b, n := rt.NondetInt(1), rt.NondetInt(2), rt.NondetInt(3)
+	g1, g2, g3 := rt.NondetBool(4), rt.NondetBool(5), rt.NondetBool(6)
+	rt.Assume(n >= -1 && n <= 2)
+	mk := func(i int) Iter[int] {
+		switch i {
+%(mk)s
+		}
+		return nil
+	}
+	step := func(it Iter[int]) {
+		if it.MoveNext() {
+			rt.Emit(rt.YIELD, it.Current())
+		} else {
+			rt.Emit(rt.ADV_END, 0)
+		}
+	}
+	for i := 0; i < %(k)d; i++ {
+		rt.SetLog(i)
+		it := mk(i)
+		for s := 0; s < %(m)d; s++ {
+			step(it)
+		}
+	}
+	var its [%(k)d]Iter[int]
+	var left [%(k)d]int
+	for i := 0; i < %(k)d; i++ {
+		rt.SetLog(10 + i)
+		rt.Actor(i + 1)
+		its[i] = mk(i)
+		rt.Actor(0)
+		left[i] = %(m)d
+	}
+	for t := 0; t < %(k)d*%(m)d; t++ {
+		// pick among the iterators that still have steps left
+		var cand [%(k)d]int
+		nc := 0
+		for i := 0; i < %(k)d; i++ {
+			if left[i] > 0 {
+				cand[nc] = i
+				nc++
+			}
+		}
+		i := cand[0]
+		if nc > 1 {
+			i = cand[rt.Choose(7, nc)]
+		}
+		it := its[i]
+		rt.SetLog(10 + i)
+		rt.Actor(i + 1)
+		step(it)
+		rt.Actor(0)
+		left[i]--
+	}
+	rt.SetLog(0)
+	for i := 0; i < %(k)d; i++ {
+		rt.AssertSameLogs(i, 10+i, 1400+i)
+	}
+	rt.AssertDisjointFootprints(1410)
+}""" % {"name": name, "k": k, "m": m, "mk": mk}
